@@ -230,6 +230,19 @@ def run_args(spec, rec, lib):
             fn = "verify_signable"
         elif r == 1:
             case = rootchain.gen_pair(rng)
+            if i % 4 == 1 and isinstance(case["trusted"].get("signed"), dict) and isinstance(case["new"].get("signatures"), dict):
+                # an offer that carries NO entry from any key of the rule in force, against a trusted key list in descending order (and
+                # the offered one too): whatever the refusal message needs, it does not reorder the caller's lists
+                try:
+                    for doc in (case["trusted"], case["new"]):
+                        pk = doc["signed"]["delegations"]["root"]["pubkeys"]
+                        pk.sort(reverse=True)
+                    for h in list(case["new"]["signatures"]):
+                        if h in case["trusted"]["signed"]["delegations"]["root"]["pubkeys"]:
+                            del case["new"]["signatures"][h]
+                    case["row"] = "no-entry-from-rule-in-force"
+                except (KeyError, TypeError, AttributeError):
+                    pass
             _m, _f, out, mutated = rootchain.evaluate(case, lib)
             fn = "verify_root"
         elif r == 2:
